@@ -23,7 +23,9 @@ def mk(kind, p, d):
 
 def _mk(kind, p, d):
     if kind == 'Line':
-        return Line(lib.P(p), lib.V(d))
+        # two-point form from a Point object that earlier served other (moved) lines
+        pt = lib.use_point_elsewhere(lib.P(p))
+        return Line(pt, lib.P(X.add(p, d)))
     if kind == 'Plane':
         return Plane(lib.P(p), lib.V(d))
     return lib.V(d)
